@@ -12,7 +12,7 @@ Inductive case :=
 (* syntactically / referentially malformed expressions: expected and observed rejection *)
 | CReject (expected observed : bool).
 
-Definition fuel := 400.
+Definition fuel := 100 * 200.  (* worklist steps; the exploration stops as soon as the worklist is empty, and running out of fuel makes the check FAIL *)
 
 Definition expr_ok (s : schema) (ty : nat) (e : re) : bool :=
   equiv_check s (nrange 0 (List.length (s_nodes s))) fuel e (nt_start (ntype_of s ty)).
